@@ -73,11 +73,21 @@ DropUnderscore(t, p, e) ==
   IF p >= e THEN <<>>
   ELSE (IF t[p] = 95 THEN <<>> ELSE <<t[p]>>) \o DropUnderscore(t, p + 1, e)
 
+\* number of significant digits of the exponent part of a literal (0 when there is none)
+ExpDigits(bs) ==
+  LET ps == {i \in 1..Len(bs) : bs[i] \in {101, 69}} IN
+  IF ps = {} THEN 0
+  ELSE LET p == CHOOSE i \in ps : TRUE
+           q == IF p + 1 <= Len(bs) /\ bs[p + 1] \in {43, 45} THEN p + 2 ELSE p + 1
+       IN Len(StripLead([i \in 1..(Len(bs) - q + 1) |-> bs[q + i - 1] - 48]))
+
 NumTok(t, p0, q, nl) ==
   LET e == NumEnd(t, q) IN
   IF e <= Len(t) /\ IsIdStart(Decode(t, e)[1])
   THEN Tok("Num", p0, q, e, <<>>, nl, "bad")
-  ELSE Tok("Num", p0, q, e, DropUnderscore(t, q, e), nl, "ok")
+  ELSE LET v == DropUnderscore(t, q, e) IN
+       \* an exponent of five or more digits is outside every decimal range: magnitude not pinned
+       Tok("Num", p0, q, e, v, nl, IF ExpDigits(v) > 4 THEN "free" ELSE "ok")
 
 -----------------------------------------------------------------------------
 \* strings.  SScan(t, p, quote, acc) = <<status, end index (after the quote), value>>
